@@ -213,6 +213,11 @@ class FeArray(np.ndarray):
             # broadcasting against a FeArray always keeps the (Ne, nPg) axes
             return res.view(FeArray)
         feShape = _FeShape(inputs)
+        if method == "reduce" and not _KeepsFeAxes(
+            kwargs.get("axis", 0), np.ndim(args[0])
+        ):
+            # the element or Gauss-point axis was consumed: not a field, whatever the shape
+            feShape = ()
         if isinstance(res, tuple):
             return tuple(FeArray.__wrap(array, feShape) for array in res)
         return FeArray.__wrap(res, feShape)
